@@ -71,7 +71,8 @@ func (p *Pollard) GetTreeRows() uint8 {
 // the hash is not the hash of a leaf or if the hash wasn't found in the accumulator.
 func (p *Pollard) GetLeafPosition(hash Hash) (uint64, bool) {
 	polNode, found := p.NodeMap[hash.mini()]
-	if !found {
+	if !found || polNode.data != hash {
+		// The map is keyed with only the first 12 bytes of the hash.
 		return 0, false
 	}
 
